@@ -187,7 +187,7 @@ func genCase(r *vlib.Rand, layout string, big bool, quick bool) (params, []byte,
 
 	maxLeaves := 1200
 	if !quick {
-		maxLeaves = 6000
+		maxLeaves = 3000
 	}
 	var n int
 	if big {
@@ -407,10 +407,10 @@ func mismatch(got, want []byte) string {
 }
 
 func run(c *vlib.Ctx) {
-	c.Rule("case = one import: layout {balanced,trickle} x width {2..8,16,174,1024} x chunker {size-1..4096, rabin-min-avg-max small; big strata: size-32K..256K, default, rabin, buzhash} x raw/dag-pb leaves x CID builder {nil,v0,v1 sha2-256,v1 blake2b-256,v1 sha2-512} x mode (12 values incl. setuid/setgid/sticky) x mtime {zero,epoch,negative,nanos,negative+nanos,random}; chunk counts at the layout's shape boundaries (w^d±1, 2w^d±1; trickle layer capacities ±1) or random up to 1200 (thorough 6000) leaves, partial last chunk; inputs random/constant/periodic (shared sub-DAGs). Every stored node is re-fetched and decoded. distinct = FNV of config+input descriptor+resulting root CID/shape; non-trivial = DAG height >= 3 (stratum balanced-raw-single: root is a raw node).")
-	c.Cases("balanced", c.N(180, 4500), oneImport("balanced"))
-	c.Cases("trickle", c.N(180, 4500), oneImport("trickle"))
-	c.Cases("balanced-big", c.N(12, 300), oneImport("balanced-big"))
-	c.Cases("trickle-big", c.N(12, 300), oneImport("trickle-big"))
-	c.Cases("balanced-raw-single", c.N(24, 400), oneImport("balanced-raw-single"))
+	c.Rule("case = one import: layout {balanced,trickle} x width {2..8,16,174,1024} x chunker {size-1..4096, rabin-min-avg-max small; big strata: size-32K..256K, default, rabin, buzhash} x raw/dag-pb leaves x CID builder {nil,v0,v1 sha2-256,v1 blake2b-256,v1 sha2-512} x mode (12 values incl. setuid/setgid/sticky) x mtime {zero,epoch,negative,nanos,negative+nanos,random}; chunk counts at the layout's shape boundaries (w^d±1, 2w^d±1; trickle layer capacities ±1) or random up to 1200 (thorough 3000) leaves, partial last chunk; inputs random/constant/periodic (shared sub-DAGs). Every stored node is re-fetched and decoded. distinct = FNV of config+input descriptor+resulting root CID/shape; non-trivial = DAG height >= 3 (stratum balanced-raw-single: root is a raw node).")
+	c.Cases("balanced", c.N(180, 1500), oneImport("balanced"))
+	c.Cases("trickle", c.N(180, 1500), oneImport("trickle"))
+	c.Cases("balanced-big", c.N(12, 100), oneImport("balanced-big"))
+	c.Cases("trickle-big", c.N(12, 100), oneImport("trickle-big"))
+	c.Cases("balanced-raw-single", c.N(24, 200), oneImport("balanced-raw-single"))
 }
